@@ -23,7 +23,7 @@ ASSUMPTIONS = ['the renderer (term -> source text) is the inverse of the documen
 
 def plan(tier, seed):
     if tier == 'quick':
-        return {'n': 36000, 'deadline': 50,
+        return {'n': 36000, 'deadline': 150,
                 'floor': {'distinct_nontrivial': 4000, 'to_python_checked': 5000, 'twin_unifications': 25000,
                           'negative_twins': 5000, 'interning_checked': 8000, 'cross_engine_unifications': 5000,
                           'quoted_atoms': 8000, 'non_ascii_atoms': 3000, 'atoms_with_quote_or_newline': 2000}}
